@@ -17,10 +17,12 @@ from .sexp import Q
 class Ctx:
     """One verification condition's worth of z3 declarations."""
 
-    def __init__(self, abstract_order=False, relativize_int=False):
+    def __init__(self, abstract_order=False, relativize_int=False, abstract_mul=False):
         # abstract_order: comparisons other than =/!= become uninterpreted predicates on G. Validity under
         # the abstraction implies validity under the real order (used only to turn `unknown` into `unsat`).
         self.abstract_order = abstract_order
+        # abstract_mul: integer multiplication becomes an uninterpreted function (sound for `unsat` only)
+        self.abstract_mul = abstract_mul
         # relativize_int: an integer-sorted bound variable is a G-sorted solver variable x guarded by is_int(x) and
         # read through ival(x) (an equivalent reading that lines quantifiers of mixed sorts up for the solver)
         self.relativize_int = relativize_int
@@ -155,6 +157,8 @@ class Ctx:
         if tag == 'sub':
             return self.iterm(t[1], env) - self.iterm(t[2], env)
         if tag == 'mul':
+            if self.abstract_mul:
+                return z3.Function('absmul', z3.IntSort(), z3.IntSort(), z3.IntSort())(self.iterm(t[1], env), self.iterm(t[2], env))
             return self.iterm(t[1], env) * self.iterm(t[2], env)
         raise ValueError('integer term %r' % (t,))
 
@@ -386,15 +390,21 @@ class Ctx:
         env2 = dict(env)
         bound = []
         self._guards = []
+        # bound variables get canonical names (nesting depth, position in the block): alpha-equivalent formulas then
+        # translate to *identical* solver terms, so the renaming part of an obligation is discharged by rewriting alone
+        depth = env.get('__depth__', 0)
+        env2['__depth__'] = depth + 1
+        pos = 0
         for k in block:
             if k not in defs:
                 if k[1] == 'i' and self.relativize_int:
-                    c = self.fresh_const('%s$%s' % k, self.G)
+                    c = z3.Const('b%d_%d$r' % (depth, pos), self.G)
                     env2[k] = self.G.ival(c)
                     self._guards.append(self.G.is_int(c))
                 else:
-                    c = self.fresh_const('%s$%s' % k, self.sort_of(k[1]))
+                    c = z3.Const('b%d_%d$%s' % (depth, pos, k[1]), self.sort_of(k[1]))
                     env2[k] = c
+                pos += 1
                 bound.append(c)
         # evaluate definitions in dependency order
         pending = dict(defs)
